@@ -80,8 +80,78 @@ fn run_model(ctx: &mut Ctx, opts: &[&str], naircraft: usize, depth: usize) {
     ctx.bound(&format!("{mname} [{}]", cfg.label()), format!("depth {depth}, {} actions", actions.len()));
 }
 
+/// Model AGED: one aircraft with the whole frame alphabet, silences of 1 s / 31 s / 59 s and a burst of twelve
+/// frames of a bystander (which forces the sweep), from the empty table and from a "warm" row that already
+/// holds every kind of value. Every transition is judged like in ROW; every path that contains a silence is
+/// also fed as ONE stream through a FIFO while the harness moves the virtual clock (timed conformance), so
+/// time stamps the snapshot does not know age as well.
+pub fn aged_alphabet() -> Vec<crate::engine::explore::Action> {
+    use crate::engine::explore::{Act, Action};
+    let mut v = rowmodel::aircraft_actions("A", rowmodel::ADDR[0]);
+    v.push(Action::tick(1_000));
+    v.push(Action::tick(31_000));
+    v.push(Action::tick(59_000));
+    let b = crate::frames::df17(5, rowmodel::ADDR[2], crate::frames::me_ident(4, 1, crate::frames::callsign_codes("BBBBB"))).hex().into_bytes();
+    v.push(Action { name: "burst(C)x12".into(), act: Act::Burst(vec![b; 12]) });
+    v
+}
+
+pub fn warm_lines() -> Vec<Vec<u8>> {
+    let acts = rowmodel::aircraft_actions("A", rowmodel::ADDR[0]);
+    let pick = |n: &str| -> Vec<u8> {
+        match &acts.iter().find(|a| a.name.ends_with(n)).unwrap_or_else(|| panic!("no action {n}")).act {
+            crate::engine::explore::Act::Line(l) => l.clone(),
+            _ => unreachable!(),
+        }
+    };
+    ["DF11 CA5", "DF20 BDS1,7 all", "TC4 EIN45F cat3", "DF5 4521", "DF4 31000ft", "TC19 v1", "DF20 BDS5,0", "DF21 2101 BDS6,0"].iter().map(|n| pick(n)).collect()
+}
+
+pub fn warm_init(cfg: &Cfg) -> Vec<crate::snap::Snap> {
+    let lines = warm_lines();
+    let t = crate::snap::new_table();
+    let o = crate::run::run_file(cfg, &crate::run::join_lines(&lines), &t);
+    assert!(o.is_ok(), "warm row: {o:?}");
+    crate::snap::snapshot(&t)
+}
+
+/// the reduced alphabet of model AGEDcore: one frame per kind of value, the silences and the burst
+pub fn aged_core_alphabet() -> Vec<crate::engine::explore::Action> {
+    let keep = ["DF11 CA5", "DF4 9000ft", "DF5 1000", "TC4 RYR9AB cat5", "TC11 even p1", "TC11 odd p1", "TC19 v2", "BDS2,0 DLH4XY", "DF20 BDS5,0", "BDS6,0", "tick", "burst"];
+    aged_alphabet().into_iter().filter(|a| keep.iter().any(|k| a.name.contains(k))).collect()
+}
+
+fn run_aged(ctx: &mut Ctx, opts: &[&str], warm: bool, depth: usize, core: bool) {
+    let cfg = Cfg::new(opts);
+    let actions = if core { aged_core_alphabet() } else { aged_alphabet() };
+    let wl = warm_lines();
+    let prefix: Option<&[Vec<u8>]> = if warm { Some(&wl) } else { None };
+    let oracle = RowOracle { lookup: Lookup::new(), relaxed: opts.contains(&"-R"), probe_idempotence: false, prop: "C11" };
+    let init = if warm { warm_init(&cfg) } else { vec![] };
+    let model = Model { cfg: &cfg, actions: &actions, depth, init: init.clone(), aux0: Slots::default() };
+    let mname = format!("AGED{}{}d{depth}", if core { "core" } else { "" }, if warm { "w" } else { "e" });
+    explore(ctx, &model, rowmodel::aux_step, |ctx, st| {
+        let complaints = oracle.judge(ctx, &cfg, st);
+        ctx.out.traces_validated += 1;
+        let extra = json!({"aged": true, "warm": warm, "depth": depth, "core": core});
+        rowmodel::report(ctx, "C11", &mname, &cfg, &actions, st, complaints, extra.clone());
+        let has_tick = st.path.iter().any(|&i| matches!(actions[i].act, crate::engine::explore::Act::Tick(_)));
+        let ends_with_tick = matches!(st.action.act, crate::engine::explore::Act::Tick(_));
+        if has_tick && !ends_with_tick && (st.path.len() == depth || st.path.len() == 2) {
+            crate::engine::explore::timed_conformance_from(ctx, &format!("C11/{mname}"), &mname, &cfg, &init, prefix, &actions, st, extra);
+        }
+    });
+    ctx.bound(&format!("{mname} [{}]", cfg.label()), format!("depth {depth}, {} actions", actions.len()));
+}
+
 fn run(ctx: &mut Ctx) {
     squitterator::set_observer_coords_from_str(rowmodel::OBSERVER_STR);
+    for opts in configs() {
+        for warm in [false, true] {
+            run_aged(ctx, &opts, warm, if ctx.tier.thorough() && opts.len() < 2 { 4 } else { 3 }, false);
+        }
+        run_aged(ctx, &opts, true, if ctx.tier.thorough() { 5 } else { 4 }, true);
+    }
     for opts in configs() {
         if ctx.tier.thorough() {
             run_model(ctx, &opts, 2, 4);
@@ -104,6 +174,28 @@ fn replay(ctx: &mut Ctx, case: &Value) {
     let n = case.pointer("/extra/naircraft").and_then(|x| x.as_u64()).unwrap_or(2) as usize;
     let depth = case.pointer("/extra/depth").and_then(|x| x.as_u64()).unwrap_or(3) as usize;
     let path: Vec<usize> = case.get("path").and_then(|p| p.as_array()).map(|a| a.iter().filter_map(|x| x.as_u64().map(|v| v as usize)).collect()).unwrap_or_default();
+    if case.pointer("/extra/aged").is_some() {
+        let warm = case.pointer("/extra/warm").and_then(|x| x.as_bool()).unwrap_or(false);
+        let core = case.pointer("/extra/core").and_then(|x| x.as_bool()).unwrap_or(false);
+        let actions = if core { aged_core_alphabet() } else { aged_alphabet() };
+        let wl = warm_lines();
+        let prefix: Option<&[Vec<u8>]> = if warm { Some(&wl) } else { None };
+        let oracle = RowOracle { lookup: Lookup::new(), relaxed: o.contains(&"-R"), probe_idempotence: false, prop: "C11" };
+        let init = if warm { warm_init(&cfg) } else { vec![] };
+        let model = Model { cfg: &cfg, actions: &actions, depth, init: init.clone(), aux0: Slots::default() };
+        let mname = format!("AGED{}{}d{depth}", if core { "core" } else { "" }, if warm { "w" } else { "e" });
+        replay_path(ctx, &model, &path, rowmodel::aux_step, |ctx, st| {
+            if crate::engine::explore::replay_timed_conformance_from(ctx, case, &format!("C11/{mname}"), &cfg, &init, prefix, &actions, st) {
+                return;
+            }
+            let complaints = oracle.judge(ctx, &cfg, st);
+            for (s, m) in &complaints {
+                crate::run::say(&format!("  oracle [{s}]: {m}"));
+            }
+            rowmodel::report(ctx, "C11", &mname, &cfg, &actions, st, complaints, json!({"aged": true, "warm": warm, "depth": depth, "core": core}));
+        });
+        return;
+    }
     let actions = rowmodel::row_alphabet(n);
     let oracle = RowOracle { lookup: Lookup::new(), relaxed: o.contains(&"-R"), probe_idempotence: true, prop: "C11" };
     let model = Model { cfg: &cfg, actions: &actions, depth, init: vec![], aux0: Slots::default() };
